@@ -230,15 +230,36 @@ func nodifyStrucType(nodes []Node) Node {
 	return NewStructType(name, members)
 }
 
+// nodifyTupleOrStructType builds a tuple, or a struct if the tuple is
+// followed by a type definition (ex: <Name,field1,field2>). Parsing
+// the common prefix only once keeps the parser linear: trying the
+// struct and then the tuple alternative doubles the work at each
+// level of nesting.
+func nodifyTupleOrStructType(nodes []Node) Node {
+	if _, ok := nodes[3].(parsec.MaybeNone); ok {
+		return nodifyTupleType(nodes[:3])
+	}
+	// Maybe wraps the matched node into a list of one element.
+	maybe, ok := nodes[3].([]Node)
+	if !ok || len(maybe) != 1 {
+		return fmt.Errorf("wrong type definition %+v", nodes[3])
+	}
+	definition, ok := maybe[0].([]Node)
+	if !ok || len(definition) != 4 {
+		return fmt.Errorf("wrong type definition %+v", maybe[0])
+	}
+	return nodifyStrucType(append(append([]Node{}, nodes[:3]...),
+		definition...))
+}
+
 func init() {
 
 	var arrayType parsec.Parser
 	var mapType parsec.Parser
-	var structType parsec.Parser
-	var tupleType parsec.Parser
+	var tupleOrStructType parsec.Parser
 
 	var declarationType = parsec.OrdChoice(nil,
-		basicType(), &mapType, &arrayType, &structType, &tupleType)
+		basicType(), &mapType, &arrayType, &tupleOrStructType)
 
 	arrayType = parsec.And(nodifyArrayType,
 		parsec.Atom("[", "MapStart"),
@@ -254,19 +275,17 @@ func init() {
 			typeName(),
 		))
 
-	tupleType = parsec.And(nodifyTupleType,
-		parsec.Atom("(", "TypeParameterStart"),
-		&listType,
-		parsec.Atom(")", "TypeParameterClose"))
-
-	structType = parsec.And(nodifyStrucType,
-		parsec.Atom("(", "TypeParameterStart"),
-		&listType,
-		parsec.Atom(")", "TypeParameterClose"),
+	var typeDefinition = parsec.And(nil,
 		parsec.Atom("<", "TypeDefinitionStart"),
 		structName(),
 		&typeMemberList,
 		parsec.Atom(">", "TypeDefinitionClose"))
+
+	tupleOrStructType = parsec.And(nodifyTupleOrStructType,
+		parsec.Atom("(", "TypeParameterStart"),
+		&listType,
+		parsec.Atom(")", "TypeParameterClose"),
+		parsec.Maybe(nil, typeDefinition))
 
 	mapType = parsec.And(nodifyMap,
 		parsec.Atom("{", "MapStart"),
